@@ -21,7 +21,38 @@ def short(name):
 
 
 def conds_before(path, i):
-    return [e.a for e in path.events[:i] if e.kind == "ASSUME"]
+    conds = [e.a for e in path.events[:i] if e.kind == "ASSUME"]
+    # unit resolution: (A || B) together with !A gives B (e.g. a search loop left by `i == N || a[i] == key`, then `i != N` checked)
+    from .engine import neg
+    known = set(c for c in conds if isinstance(c, tuple))
+    changed = True
+    while changed:
+        changed = False
+        for c in list(known):
+            # a <= b together with a != b gives a < b
+            if isinstance(c, tuple) and c[:2] == ("cmp", "<="):
+                for ne in (("cmp", "!=", c[2], c[3]), ("cmp", "!=", c[3], c[2])):
+                    if ne in known and ("cmp", "<", c[2], c[3]) not in known:
+                        known.add(("cmp", "<", c[2], c[3]))
+                        conds.append(("cmp", "<", c[2], c[3]))
+                        changed = True
+            if isinstance(c, tuple) and c[:1] == ("or",):
+                for a, b in ((c[1], c[2]), (c[2], c[1])):
+                    try:
+                        na = neg(a)
+                    except Exception:
+                        continue
+                    if na in known and b not in known:
+                        known.add(b)
+                        conds.append(b)
+                        changed = True
+            if isinstance(c, tuple) and c[:1] == ("and",):
+                for a in c[1:3]:
+                    if a not in known:
+                        known.add(a)
+                        conds.append(a)
+                        changed = True
+    return conds
 
 
 def assume_events_before(path, i):
